@@ -50,7 +50,8 @@ def fam_fixed_all(rng, tier):
 def fam_ss(rng, tier, protos=(9, 10), want=None):
     """bounded-exhaustive small histories (gen.fam_smallscope): a seeded sample in the quick tier, ALL sequences of length <= 3 in the thorough tier"""
     kw = {} if want is None else {"want": want}
-    return gen.fam_smallscope(rng, n(tier, 350, 0), protos=protos, exhaustive=(tier == "thorough"), **kw)
+    return gen.fam_smallscope(rng, n(tier, 350, 0), protos=protos, exhaustive=(tier == "thorough"), **kw) + \
+        gen.fam_setorder(rng, n(tier, 250, 0), protos=protos, exhaustive=(tier == "thorough"), **kw)
 
 
 def fam_v9(rng, tier):
@@ -68,7 +69,7 @@ def fam_ipfix(rng, tier):
 
 
 def fam_cache(rng, tier):
-    return fam_ss(rng, tier) + gen.fam_boundaries(rng) + gen.fam_isolation(rng, n(tier, 60, 500)) + gen.fam_rejected_template(rng, n(tier, 60, 400)) + gen.fam_template_noise(rng, n(tier, 60, 400)) + gen.fam_redefine(rng, n(tier, 80, 600), lossless=True) + \
+    return fam_ss(rng, tier) + gen.fam_chain_many_templates(rng, n(tier, (1100,), (1025, 1100, 4100))) + gen.fam_boundaries(rng) + gen.fam_isolation(rng, n(tier, 60, 500)) + gen.fam_rejected_template(rng, n(tier, 60, 400)) + gen.fam_template_noise(rng, n(tier, 60, 400)) + gen.fam_redefine(rng, n(tier, 80, 600), lossless=True) + \
         gen.fam_stream(rng, n(tier, 100, 800), simple_ipfix=True, lossless=True)
 
 
@@ -77,7 +78,7 @@ def fam_c07(rng, tier):
 
 
 def fam_c11(rng, tier):
-    return gen.fam_chain(rng, n(tier, 150, 600)) + gen.fam_chain_minimal(rng, n(tier, 60, 400)) + (gen.fam_chain(rng, 60, max_pkts=7, all_partitions=True) if tier == "thorough" else [])
+    return gen.fam_chain_many_templates(rng, n(tier, (1100,), (1025, 1100, 4100))) + gen.fam_chain(rng, n(tier, 150, 600)) + gen.fam_chain_minimal(rng, n(tier, 60, 400)) + (gen.fam_chain(rng, 60, max_pkts=7, all_partitions=True) if tier == "thorough" else [])
 
 
 def fam_c12(rng, tier):
@@ -86,8 +87,8 @@ def fam_c12(rng, tier):
 
 def fam_c14(rng, tier):
     if tier == "thorough":
-        return gen.fam_trunc(rng, 150) + gen.fam_trunc(rng, 40, fracs=list(range(0, 1001, 25)))
-    return gen.fam_trunc(rng, 300)
+        return gen.fam_trunc_wide(rng) + gen.fam_trunc(rng, 150) + gen.fam_trunc(rng, 40, fracs=list(range(0, 1001, 25)))
+    return gen.fam_trunc_wide(rng) + gen.fam_trunc(rng, 300)
 
 
 def fam_c13(rng, tier):
